@@ -258,7 +258,6 @@ class Node(object):
                 self.simulation.network.customer_class_names,
                 [self.class_change[individual.previous_class][clss_name] for clss_name in self.simulation.network.customer_class_names],
             )
-            individual.prev_priority_class = individual.priority_class
             individual.priority_class = self.simulation.network.priority_class_mapping[individual.customer_class]
             self.simulation.statetracker.change_state_classchange(self, individual)
 
